@@ -351,7 +351,7 @@ MutCases ==
           \cup { << "flip", a, b >> : b \in FlipBits(a) }
           \cup (IF Arts[a].var = 1 THEN { << "trunc", a, k >> : k \in TruncAt(a) } \cup { << "ext", a, v >> : v \in 1..4 } ELSE { })
           \cup { << "sub32", a, al, f, p >> : al \in 1..3, f \in { g \in 1..NFields : \E al2 \in 1..3 : FieldOk(a, al2, g) }, p \in 1..Len(MutPool) }
-          \cup { << "byte", a, pos, v >> : pos \in 1..Arts[a].hdr, v \in (IF Thorough THEN 0..255 ELSE ByteVals(a, pos)) }
+          \cup UNION { { << "byte", a, pos, v >> : v \in (IF Thorough THEN 0..255 ELSE ByteVals(a, pos)) } : pos \in 1..Arts[a].hdr }
         : a \in 1..Len(Arts) }
 SetBytes(b, pos, v) == [ i \in 1..Len(b) |-> IF i >= pos /\ i < pos + Len(v) THEN v[i - pos + 1] ELSE b[i] ]
 Mutate(c) ==
